@@ -512,7 +512,7 @@ pub fn run(ctx: &Ctx) -> PropResult {
     let mut meta = PropMeta::default();
     meta.exhaustive = full;
     meta.rule = format!(
-        "getters: weekday()/day_of_year() of {} compared with the calendar model ((n+1) mod 7 with day 0 = Monday; doy by definition). format: one Date::format(\"e|eeeeeee|w|q|D\") call per day ({}), fields compared with model weekday, Monday-based weekday, ISO week (week of the Thursday), quarter and day of year; every 16th day also through DateTime at 23:59:59. setter: {} years x day-of-year 0..=367 (+2^31, u32::MAX) on Date, a subset on DateTime with a random time of day, and on DateTimes within a day of New Year carrying offsets that do / do not move the local year. Non-trivial = a day in Jan 1-3 / Dec 29-31 (week 52/53/1 decisions) or a Sunday before 0001-01-01; every setter case. Distinct by input hash (full sweeps: counted, each day once). Consecutive format calls on days a power-of-two number of days or weeks (or 400-year cycles) apart, and back. set_day_of_year on DateTimes in the two partly representable years with N around the last/first representable day and offsets of both signs: there a returned value must be the N-th day of that year (refusing is fine, another day or a panic is not).",
+        "getters: weekday()/day_of_year() of {} compared with the calendar model ((n+1) mod 7 with day 0 = Monday; doy by definition). format: one Date::format(\"e|eeeeeee|w|q|D\") call per day ({}), fields compared with model weekday, Monday-based weekday, ISO week (week of the Thursday), quarter and day of year; every 16th day also through DateTime at 23:59:59. setter: {} years x day-of-year 0..=367 (+2^31, u32::MAX) on Date, a subset on DateTime with a random time of day, and on DateTimes within a day of New Year carrying offsets that do / do not move the local year. Non-trivial = a day in Jan 1-3 / Dec 29-31 (week 52/53/1 decisions) or a Sunday before 0001-01-01; every setter case. Distinct by input hash (full sweeps: counted, each day once). Consecutive format calls on days a power-of-two number of days or weeks (or 400-year cycles) apart, and back. set_day_of_year on DateTimes in the two partly representable years with N around the last/first representable day and offsets of both signs: there a returned value must be the N-th day of that year (refusing is fine, another day or a panic is not). weekday()/day_of_year() of DateTimes under any offset — one case in ten with an Offset::Fixed of a day or more — against the model's local day.",
         if full { "ALL 2^32 day numbers" } else { "the C01 day windows + strided whole range" },
         if full { "ALL 2^32 days" } else { "windows at stride 8 (quick) / 1 (thorough-rel), strided whole range, random year edges" },
         years.len()
